@@ -1,3 +1,5 @@
+//go:build go1.23
+
 package tbtc
 
 // C22, concurrent wallets: a node coordinates every wallet it controls on its
